@@ -1,6 +1,7 @@
 package main
 
 import (
+	"fmt"
 	"strings"
 
 	"golang.org/x/tools/go/ssa"
@@ -151,6 +152,7 @@ func runC04(c *Check) {
 
 	ruleRestartReconciliation(c, p, "C04-R2")
 	ruleCacheFiles(c, p, "C04-R5")
+	rulePersistedStateLoadable(c, p, "C04-R6")
 }
 
 func runC05(c *Check) {
@@ -237,6 +239,66 @@ func runC05(c *Check) {
 	c.MinInstances("C05-R1", 2)
 	c.MinInstances("C05-R3", 5)
 	ruleRestartReconciliation(c, p, "C05-R2")
+	ruleReexecutionAccepted(c)
+}
+
+// ruleReexecutionAccepted (C05-R4): the apply step executes a block before it records the new
+// state; after a crash in between, the restart applies the same block again with the previous
+// state root of the recorded (older) state while the executor already holds the newer state.
+// The repository's executor must therefore not refuse ExecuteTxs on a comparison involving
+// prevStateRoot: no branch that leads only to error returns may depend on that parameter.
+func ruleReexecutionAccepted(c *Check) {
+	rule := "C05-R4"
+	c.Doc(rule, "GA: in the repository's executor, no refusing branch of ExecuteTxs depends on the prevStateRoot parameter (re-execution after a crash between execution and the state write must be accepted).")
+	tp := c.Mod(ModTestapp)
+	n := 0
+	for _, fn := range tp.Funcs {
+		if fn.Parent() != nil || fn.Name() != "ExecuteTxs" || fn.Signature.Recv() == nil || !tp.InRepo(fn) || fn.Signature.Params().Len() != 5 {
+			continue
+		}
+		pk := fnPkg(fn)
+		if pk == nil || !strings.HasPrefix(pk.Pkg.Path(), rootPath) {
+			continue
+		}
+		prev := fn.Params[len(fn.Params)-1]
+		if prev.Type().String() != "[]byte" {
+			continue
+		}
+		n++
+		g := BuildECFG(tp, fn, ExpandOpts{MaxDepth: 1})
+		c.NoteGraph(g)
+		var bad *Node
+		for _, e := range g.Select(func(x *Node) bool { return x.Kind == NTrue || x.Kind == NFalse }) {
+			allErr, any := true, false
+			reach := g.Reachable([]*Node{e}, nil)
+			for _, x := range g.Exits {
+				if reach[x] {
+					any = true
+					if g.ExitClass(x) != rcA {
+						allErr = false
+					}
+				}
+			}
+			if !any || !allErr {
+				continue
+			}
+			t, _ := CondTerm(e)
+			if tp.DeepContains(t, func(x *Term) bool { return x.V == ssa.Value(prev) }, 2) {
+				bad = e
+			}
+		}
+		inst := fnShort(fn) + " ⟂ never-refuses-on-prevStateRoot"
+		if bad == nil {
+			c.OK(rule, inst, fnName(fn), tp.Pos(fn.Pos()), "no refusing branch depends on prevStateRoot", true)
+		} else {
+			t, _ := CondTerm(bad)
+			c.Bad(rule, inst, fnName(fn), tp.InstrPos(bad.In), "ExecuteTxs refuses on "+trunc(t.String(), 100)+", which involves prevStateRoot: after a crash between execution and the state write the restart re-applies the block with the older state root and is refused forever", nil)
+		}
+	}
+	if n == 0 {
+		c.Unk(rule, "executors", "", "", "anchor lost: no ExecuteTxs implementation in the application module")
+	}
+	c.MinInstances(rule, 1)
 }
 
 // isHeightPlusOne: term is Store.Height(...)#0 + 1
@@ -394,4 +456,187 @@ func ruleCacheFiles(c *Check, p *Prog, rule string) {
 			c.Bad(rule, inst, fnName(w), posOf(g, isCreate), detail+"; and the loader returns an error on a decode failure, which is fatal to NewManager: a crash while the cache is written blocks every later start", desc)
 		}
 	}
+}
+
+// rulePersistedStateLoadable (C04-R6): writer/reader agreement for the persisted chain state.
+// The loader refuses a stored state whose last block height is below a threshold relative to the
+// genesis initial height; every state the node persists must pass that test, otherwise a crash
+// after the write leaves a store the node can never start from. A persisted state is either the
+// state of an applied block (NextState, whose height is a block height) or a literal whose
+// LastBlockHeight is InitialHeight+k, compared with the threshold.
+func rulePersistedStateLoadable(c *Check, p *Prog, rule string) {
+	c.Doc(rule, "CS+VP: every persisted state (Store.UpdateState call sites, argument traced to NextState or a literal) satisfies the loader's refusal test on LastBlockHeight vs InitialHeight.")
+	var loader *ssa.Function
+	for _, f := range funcsCalling(p, rootPath+"/block", func(n string) bool { return n == storeM("GetState") }) {
+		if strings.HasPrefix(resultTypes(f), rootPath+"/types.State") {
+			loader = f
+		}
+	}
+	if loader == nil {
+		c.Unk(rule, "state-loader", "", "", "anchor lost: the function of the block package that loads the state (Store.GetState) and returns it")
+		return
+	}
+	// offset form: term = base + k
+	offsetOf := func(t *Term, base string) (int64, bool) {
+		t = t.unconv()
+		if t.Op == "field" && t.Name == base {
+			return 0, true
+		}
+		if t.Op == "bin" && (t.Name == "+" || t.Name == "-") {
+			l, r := t.Args[0].unconv(), t.Args[1].unconv()
+			if l.Op == "field" && l.Name == base && r.Op == "const" {
+				var k int64
+				if _, err := fmt.Sscan(r.Name, &k); err == nil {
+					if t.Name == "-" {
+						k = -k
+					}
+					return k, true
+				}
+			}
+		}
+		return 0, false
+	}
+	g := BuildECFG(p, loader, ExpandOpts{MaxDepth: 0})
+	c.NoteGraph(g)
+	// the refusal test: an edge whose every reachable exit is an error return
+	threshold, haveT := int64(0), false
+	var tpos string
+	for _, e := range g.Select(EdgeWhere(func(t *Term, pol bool, n *Node) bool { return t.Op == "bin" })) {
+		t, pol := CondTerm(e)
+		if !pol {
+			continue
+		}
+		var a, b int64
+		var okA, okB bool
+		op := t.Name
+		if a, okA = offsetOf(t.Args[0], "InitialHeight"); okA {
+			b, okB = offsetOf(t.Args[1], "LastBlockHeight")
+		} else if b, okB = offsetOf(t.Args[0], "LastBlockHeight"); okB {
+			a, okA = offsetOf(t.Args[1], "InitialHeight")
+			op = map[string]string{"<": ">", "<=": ">=", ">": "<", ">=": "<="}[op]
+		}
+		if !okA || !okB {
+			continue
+		}
+		allErr := true
+		reach := g.Reachable([]*Node{e}, nil)
+		for _, x := range g.Exits {
+			if reach[x] && g.ExitClass(x) != rcA {
+				allErr = false
+			}
+		}
+		if !allErr {
+			continue
+		}
+		// refuse iff I+a op L+b
+		switch op {
+		case ">":
+			threshold, haveT = a-b, true
+		case ">=":
+			threshold, haveT = a-b+1, true
+		}
+		tpos = p.InstrPos(e.In)
+	}
+	if !haveT {
+		c.OK(rule, "loader ⟂ refusal-test", fnName(loader), p.Pos(loader.Pos()), "the loader refuses no stored state by its height", true)
+	} else {
+		c.OK(rule, "loader ⟂ refusal-test", fnName(loader), tpos, fmt.Sprintf("a stored state is accepted iff LastBlockHeight >= InitialHeight%+d", threshold), true)
+	}
+	// persisted states
+	isNext := func(t *Term) bool { return t.IsCall("types.State).NextState") }
+	n := 0
+	var trace func(v ssa.Value, fn *ssa.Function, depth int) (string, bool)
+	trace = func(v ssa.Value, fn *ssa.Function, depth int) (string, bool) {
+		t := TermOf(v, &Ctx{Fn: fn})
+		if p.DeepContains(t, isNext, 3) {
+			return "the state of an applied block (NextState)", true
+		}
+		if lv := structLitField(v, "LastBlockHeight"); lv != nil {
+			lt := TermOf(lv, &Ctx{Fn: fn})
+			if k, ok := offsetOf(lt, "InitialHeight"); ok {
+				if !haveT || k >= threshold {
+					return fmt.Sprintf("a literal with LastBlockHeight = InitialHeight%+d, which the loader accepts", k), true
+				}
+				return fmt.Sprintf("a literal with LastBlockHeight = InitialHeight%+d, which the loader refuses (it accepts only LastBlockHeight >= InitialHeight%+d): after this write the node cannot be started again until a block's state replaces it", k, threshold), false
+			}
+			return "a literal whose LastBlockHeight is " + trunc(lt.String(), 60), !haveT
+		}
+		// a parameter spilled to a local (its address is taken)
+		if u, ok := v.(*ssa.UnOp); ok {
+			if al, ok := u.X.(*ssa.Alloc); ok {
+				var stored []ssa.Value
+				for _, r := range *al.Referrers() {
+					if st, ok := r.(*ssa.Store); ok && st.Addr == ssa.Value(al) {
+						stored = append(stored, st.Val)
+					}
+				}
+				if len(stored) == 1 {
+					if _, isP := stored[0].(*ssa.Parameter); isP {
+						v = stored[0]
+					}
+				}
+			}
+		}
+		if prm, ok := v.(*ssa.Parameter); ok && depth < 3 {
+			idx := -1
+			for i, q := range fn.Params {
+				if q == prm {
+					idx = i
+				}
+			}
+			why, all, any := "", true, false
+			for _, caller := range callersOf(p, fn) {
+				for _, b := range caller.Blocks {
+					for _, in := range b.Instrs {
+						call, ok := in.(*ssa.Call)
+						if !ok || call.Common().StaticCallee() != fn || idx >= len(call.Common().Args) {
+							continue
+						}
+						any = true
+						w, ok2 := trace(call.Common().Args[idx], caller, depth+1)
+						if !ok2 {
+							return w + " (passed by " + fnShort(caller) + ")", false
+						}
+						why = w
+						_ = all
+					}
+				}
+			}
+			if any {
+				return why, true
+			}
+		}
+		if u, ok := v.(*ssa.UnOp); ok {
+			if fa, ok := u.X.(*ssa.FieldAddr); ok && fieldLabel(fa.X.Type(), fa.Field) == "lastState" {
+				return "the manager's current state (loaded through the loader or produced by an applied block)", true
+			}
+		}
+		return "a state of unknown origin: " + trunc(t.String(), 80), false
+	}
+	for _, fn := range p.Funcs {
+		pk := fnPkg(fn)
+		if pk == nil || !strings.HasPrefix(pk.Pkg.Path(), rootPath) || strings.HasSuffix(pk.Pkg.Path(), "/pkg/store") {
+			continue
+		}
+		for _, b := range fn.Blocks {
+			for _, in := range b.Instrs {
+				call, ok := in.(*ssa.Call)
+				if !ok || commonName(call.Common()) != storeM("UpdateState") {
+					continue
+				}
+				n++
+				why, ok2 := trace(call.Common().Args[len(call.Common().Args)-1], fn, 0)
+				inst := fnShort(fn) + " ⟂ persisted-state-is-loadable"
+				if ok2 {
+					c.OK(rule, inst, fnName(fn), p.InstrPos(in), "the persisted state is "+why, true)
+				} else {
+					c.Bad(rule, inst, fnName(fn), p.InstrPos(in), "the persisted state is "+why, nil)
+				}
+			}
+		}
+	}
+	if n == 0 {
+		c.Unk(rule, "UpdateState-sites", "", "", "anchor lost: no Store.UpdateState call site")
+	}
+	c.MinInstances(rule, 2)
 }
